@@ -320,7 +320,7 @@ func (e *Engine) sourceText(from, to token.Pos) string {
 // Keys are type-based (site suffixes are added at use).
 
 // what user callbacks may write: output buffers, the scope maps (Context.Scope().Set) and the metadata map
-var callbackEffects = []string{"BD", "BL", "MD|Int|Val|map_string_stick.Value", "MV|Int|Val|map_string_stick.Value", "MD|Int|Str|map_string_string", "MV|Int|Str|map_string_string", "EXT"}
+var callbackEffects = []string{"MD|Int|Val|map_string_stick.Value", "MV|Int|Val|map_string_stick.Value", "MD|Int|Str|map_string_string", "MV|Int|Str|map_string_string", "EXT"}
 
 func (e *Engine) computeEffects() {
 	e.effects = map[*ssa.Function]map[string]bool{}
@@ -539,6 +539,8 @@ func (e *Engine) baseClass(f *ssa.Function, v ssa.Value) string {
 			}
 		}
 	case *ssa.ChangeType:
+		return e.baseClass(f, x.X)
+	case *ssa.MakeInterface:
 		return e.baseClass(f, x.X)
 	}
 	return ""
@@ -852,7 +854,7 @@ func (e *Engine) callEffects(f *ssa.Function, c *ssa.CallCommon) []string {
 				curClosure = nil
 			}
 		}
-		return append(out, e.externalEffects(cv, c)...)
+		return append(out, e.externalEffects(f, cv, c)...)
 	case *ssa.MakeClosure:
 		curClosure = cv
 		addFn(cv.Fn.(*ssa.Function))
@@ -879,13 +881,19 @@ func (e *Engine) callEffects(f *ssa.Function, c *ssa.CallCommon) []string {
 }
 
 // externalEffects: heap keys an external (non-repo) function may write.
-func (e *Engine) externalEffects(f *ssa.Function, c *ssa.CallCommon) []string {
+func (e *Engine) externalEffects(caller, f *ssa.Function, c *ssa.CallCommon) []string {
 	name := f.String()
 	if pureExternal(name) {
 		return nil
 	}
 	switch {
-	case strings.HasPrefix(name, "(*bytes.Buffer)."), strings.HasPrefix(name, "fmt.Fprint"), name == "io.WriteString", name == "io.Copy":
+	case name == "io.WriteString", name == "io.Copy":
+		return []string{"BD", "BL", "EXT", "X|wfail|Bool", "X|wafterfail|Bool", "MD|Int|Val|map_string_stick.Value", "MV|Int|Val|map_string_stick.Value"}
+	case strings.HasPrefix(name, "(*bytes.Buffer)."), strings.HasPrefix(name, "fmt.Fprint"):
+		// a buffer allocated by the calling function itself: nothing that existed before the caller ran changes
+		if c != nil && len(c.Args) > 0 && caller != nil && e.baseClass(caller, c.Args[0]) == "#FRESH" {
+			return []string{"BD#FRESH", "BL#FRESH", "EXT"}
+		}
 		return []string{"BD", "BL", "EXT"}
 	case name == "sort.Strings":
 		return []string{e.u.arrKey(types.Typ[types.String])}
